@@ -169,18 +169,7 @@ def pExpr9 (dateP : List Char → Option Nat) : Nat → List Char → Res ETree
 def pExprTerm (dateP : List Char → Option Nat) : Nat → List Char → Res ETree
   | 0, _ => .fail
   | n + 1, s =>
-    let paren : Res ETree :=
-      match space0 s with
-      | '(' :: r =>
-        match pLevel dateP 0 n (space0 r) with
-        | .ok e r1 =>
-          match space0 r1 with
-          | ')' :: r2 => .ok (.un .parens e) r2
-          | _ => .err
-        | .err => .err
-        | .fail => .fail
-      | _ => .err
-    match paren with
+    match pParen dateP n s with
     | .ok e r => .ok e r
     | .fail => .fail
     | .err =>
@@ -188,6 +177,20 @@ def pExprTerm (dateP : List Char → Option Nat) : Nat → List Char → Res ETr
       | .ok t r => .ok (.val t) r
       | .err => .err
       | .fail => .fail
+/-- `unary_parens` -/
+def pParen (dateP : List Char → Option Nat) : Nat → List Char → Res ETree
+  | 0, _ => .fail
+  | n + 1, s =>
+    match space0 s with
+    | '(' :: r =>
+      match pLevel dateP 0 n (space0 r) with
+      | .ok e r1 =>
+        match space0 r1 with
+        | ')' :: r2 => .ok (.un .parens e) r2
+        | _ => .err
+      | .err => .err
+      | .fail => .fail
+    | _ => .err
 /-- the loop of `expr9` -/
 def pMethods (dateP : List Char → Option Nat) : Nat → ETree → List Char → Res ETree
   | 0, _, _ => .fail
@@ -240,6 +243,6 @@ end
 
 /-- `expr` with the fuel any input needs -/
 def parseExpr (dateP : List Char → Option Nat) (s : List Char) : Res ETree :=
-  pLevel dateP 0 (16 * s.length + 32) s
+  pLevel dateP 0 (50 * s.length + 50) s
 
 end Biscuit.ExprParser
